@@ -165,7 +165,11 @@ def run(ctx):
                ('corpus', '(set-logic ALL)\n(declare-const a Int)\n(assert (let ((x (+ x 1))) (> x a)))\n(check-sat)\n'),
                ('corpus', '(set-logic ALL)\n(declare-const x Int)\n(assert (= x (+ 1 (* 2 x))))\n(check-sat)\n'),
                ('corpus', '(set-logic ALL)\n(declare-const y5 (Array Int Bool))\n(declare-const u7 (Array Int Bool))\n(assert (= y5 u7))\n(check-sat)\n'),
-               ('corpus', '(set-logic ALL)\n(declare-const b (_ BitVec 4))\n(declare-const c (_ BitVec 4))\n(assert (= b (bvadd c (bvmul b c))))\n(check-sat)\n')]
+               ('corpus', '(set-logic ALL)\n(declare-const b (_ BitVec 4))\n(declare-const c (_ BitVec 4))\n(assert (= b (bvadd c (bvmul b c))))\n(check-sat)\n'),
+               # definitions that refer to themselves or to each other (not legal SMT-LIB, but inputs all the same)
+               ('corpus', '(set-logic ALL)\n(define-fun f () Int g)\n(define-fun g () Int f)\n(assert (= f 0))\n(check-sat)\n'),
+               ('corpus', '(set-logic ALL)\n(define-fun f ((x Int)) Int (+ 1 (f x)))\n(assert (= (f 1) 0))\n(check-sat)\n'),
+               ('corpus', '(set-logic ALL)\n(define-fun w () (_ BitVec 8) ((_ zero_extend 0) w))\n(assert (= w #x00))\n(check-sat)\n')]
     budget = 40 if ctx.thorough else 12
     tot = dict(proposals=0, explored=0)
     for cls, text in inputs:
